@@ -27,6 +27,36 @@ def past_oracle_cap():
     return ORACLE_CAP[0] is not None and time.time() > ORACLE_CAP[0][0]
 
 
+# ---- hang watchdog ------------------------------------------------------------------------------------------------
+# Every call into the implementation made by a correspondence stream or an oracle is preceded by `beat(...)`.  A
+# watchdog thread started by run_check reports "the implementation does not return" (a VIOLATION whose replay is the
+# script / case being run) when nothing has beaten for HANG_S seconds: code under test that loops forever - possibly
+# inside a `try/except BaseException` that swallows every alarm - cannot be interrupted from inside the process.
+HEART = {"t": None, "what": None, "detail": None, "armed": False}
+HANG_S = float(os.environ.get("VERIF_HANG_S", "150"))
+
+
+def beat(what, detail=None, allow=None):
+    """`allow`: seconds this one step may take (default HANG_S) - for steps that are known to be long and are guarded by their own
+    timeout (a sub-process with `timeout=`)"""
+    now = time.time()
+    if HEART["armed"] and HEART["t"] is not None and now - HEART["t"] > HEART.get("maxgap", 0.0):
+        HEART["maxgap"] = now - HEART["t"]
+        HEART["maxgap_what"] = HEART["what"]
+    HEART["t"] = now
+    HEART["what"] = what
+    HEART["allow"] = allow
+    if detail is not None:
+        HEART["detail"] = detail
+
+
+def arm(on=True):
+    if not on:
+        beat("end")
+    HEART["armed"] = on
+    HEART["t"] = time.time()
+
+
 class Infra(Exception):
     """infrastructure failure: exit code 2, never a violation"""
 
@@ -85,7 +115,9 @@ def run_model(lines, timeout=1200):
     if not os.path.exists(exe):
         raise Infra("driver executable missing; lake build failed?")
     data = "\n".join(lines) + "\n"
+    beat("model driver (Lean executable)", allow=timeout + 60)
     r = subprocess.run([exe], input=data, stdout=subprocess.PIPE, stderr=subprocess.PIPE, text=True, timeout=timeout)
+    beat("model driver returned")
     if r.returncode != 0:
         raise Infra("driver crashed: " + r.stderr[-2000:])
     out = r.stdout.split("\n")
